@@ -53,6 +53,16 @@ pub fn adversarial_list() -> Vec<Vec<u8>> {
     for op in 0..=255u8 {
         v.push(vec![op]);
     }
+    // more pushes than a byte-sized counter holds, in the shape of a multisig script
+    for k in [255usize, 256, 257, 272] {
+        let mut s = vec![0x51];
+        for i in 0..k {
+            s.extend([0x01, (i % 250) as u8 + 1]);
+        }
+        s.push(if k % 256 == 16 { 0x60 } else { 0x51 });
+        s.push(0xae);
+        v.push(s);
+    }
     // beyond 1 MiB (any chunked reader / hex encoder / buffer): one filler string and one OP_RETURN with a PUSHDATA4 payload
     v.push(vec![0x51; 1_200_000]);
     v.push({
